@@ -113,6 +113,12 @@ func (in *Interp) runSide(fr *Frame, b *ssa.BasicBlock, start, join *ssa.BasicBl
 	savedBlock, savedPrev, savedDefers := fr.block, fr.prev, len(fr.defers)
 	savedDepth := in.depth
 	savedSteps := in.steps
+	// registers: a side may run through loop headers and redefine registers that are live at the
+	// branch; the frame's environment is restored after the side
+	savedEnv := make(map[ssa.Value]Value, len(fr.env))
+	for k, v := range fr.env {
+		savedEnv[k] = v
+	}
 	in.spec++
 	defer func() {
 		in.spec--
@@ -133,6 +139,7 @@ func (in *Interp) runSide(fr *Frame, b *ssa.BasicBlock, start, join *ssa.BasicBl
 		}
 		in.knownLog = in.knownLog[:knownLen]
 		fr.block, fr.prev = savedBlock, savedPrev
+		fr.env = savedEnv
 		fr.defers = fr.defers[:savedDefers]
 		fr.done = false
 		fr.skipPhis = false
